@@ -59,10 +59,12 @@ fn linearizable(ops: &[Op; 4], fin: i64) -> bool {
 }
 
 fn pick_op(th: usize) -> Op {
-    let kind = any_u8();
-    assume(kind < 6);
-    let x = any_u8() as i8 as i64;
-    assume(x >= -4 && x <= 4);
+    let kind = any_u8_below(6);
+    fixed_op(kind, th)
+}
+/// operation of a fixed kind with a symbolic operand in [-4, 4]
+fn fixed_op(kind: u8, th: usize) -> Op {
+    let x = any_usize_in(0, 9) as i64 - 4;
     Op { kind, x, res: 0, rb: 0, re: 0, th }
 }
 
@@ -132,8 +134,7 @@ pub fn c11_float_add_get_vs_set_sub() {
     let g = Gauge::new("a", "h").unwrap();
     vs::begin_register();
     let _ = g.get();
-    let mut ops = [pick_op(1), pick_op(1), pick_op(2), pick_op(2)];
-    assume(ops[0].kind == 3 && ops[1].kind == 5 && ops[2].kind == 0 && ops[3].kind == 4);
+    let mut ops = [fixed_op(3, 1), fixed_op(5, 1), fixed_op(0, 2), fixed_op(4, 2)];
     vs::begin_threads();
     vs::start_thread();
     run_float(&g, &mut ops[0]);
@@ -158,9 +159,8 @@ pub fn c11_float_inc_dec_vs_add_sub() {
     let g = Gauge::new("a", "h").unwrap();
     vs::begin_register();
     let _ = g.get();
-    let mut ops = [pick_op(1), pick_op(1), pick_op(2), pick_op(2)];
-    assume(ops[0].kind == 1 && ops[1].kind == 2 && ops[2].kind == 3 && ops[3].kind == 4);
-    assume(ops[2].x == ops[3].x);
+    let mut ops = [fixed_op(1, 1), fixed_op(2, 1), fixed_op(3, 2), fixed_op(4, 2)];
+    ops[3].x = ops[2].x;
     vs::begin_threads();
     vs::start_thread();
     run_float(&g, &mut ops[0]);
